@@ -21,7 +21,7 @@ ASSUMPTIONS = [
     'annotation values are strings, labels are string maps (what the API server enforces)',
     'other operators are Kopf-based and use the stock storages with their own prefix (docs/configuration.rst)',
 ]
-BUDGET = {'quick': 400, 'thorough': 20000}
+BUDGET = {'quick': 400, 'thorough': 4000}
 FUZZ_RUNS = {'thorough': 8000}     # inputs per process of the coverage-guided stage (tools/fuzz.py), 16 processes
 MAX_SHARDS = 16
 
